@@ -3,6 +3,7 @@ package harness
 import (
 	"encoding/json"
 	"fmt"
+	"net/http"
 	"sort"
 	"strings"
 	"sync"
@@ -37,6 +38,13 @@ func worldC12(w *World) {
 	backendCloses := t.Rare(1, 3, "backendcloses")
 	startProxy(w)
 	wb := startWSBackend(w)
+	// the backend may ignore the closing handshake, and may be slow to accept one
+	if t.Rare(1, 3, "stubborn") {
+		wb.Stubborn = func(string) bool { return true }
+		w.Probe("backend_ignores_closing_handshake")
+	}
+	hsDelay := []time.Duration{0, 0, 30 * time.Millisecond, time.Second}[t.Choice(4, "handshakedelay")]
+	wb.rb.Delay = func(r *http.Request) time.Duration { return hsDelay }
 	startAgent(w, "-shim-websockets", "-shim-path=shim")
 
 	type sess struct {
@@ -99,12 +107,23 @@ func worldC12(w *World) {
 	drainOK := false
 	w.K.Spawn("browser", func() {
 		sc := newShimClient(w, 1)
+		// the opens overlap
+		var ow sync.WaitGroup
 		for i, s := range sessions {
-			st, rep, _, err := sc.open(fmt.Sprintf("ws://example.test/s%d", i))
-			if err == nil && st == 200 && rep != nil {
-				s.id = rep.ID
-				s.opened = true
-			}
+			i, s := i, s
+			ow.Add(1)
+			go func() {
+				defer ow.Done()
+				st, rep, _, err := sc.open(fmt.Sprintf("ws://example.test/s%d", i))
+				if err == nil && st == 200 && rep != nil {
+					s.id = rep.ID
+					s.opened = true
+				}
+			}()
+		}
+		ow.Wait()
+		if nSess > 1 && hsDelay > 0 {
+			w.Probe("overlapping_opens")
 		}
 		for _, c := range calls {
 			c := c
@@ -271,7 +290,10 @@ func worldC12(w *World) {
 		for i, s := range wb.Sessions {
 			_ = s
 			if i < nSess {
-				if _, ok := closeRet[sessIndexOf(wb, s, nSess)]; ok && !s.Closed {
+				s.mu.Lock()
+				closed := s.Closed
+				s.mu.Unlock()
+				if _, ok := closeRet[sessIndexOf(wb, s, nSess)]; ok && !closed {
 					w.Violation("close", "the session was closed by the client but the backend websocket is still open")
 				}
 			}
